@@ -640,6 +640,8 @@ def rle_to_sparse(rle_data):
 def brle_to_sparse(brle_data, dtype=np.int64):
     ends = np.cumsum(brle_data)
     indices = [np.arange(s, e, dtype=dtype) for s, e in zip(ends[::2], ends[1::2])]
+    if len(indices) == 0:
+        return np.array([], dtype=dtype)
     return np.concatenate(indices)
 
 
